@@ -18,9 +18,9 @@ echo "== worktree reset to HEAD + the recorded patch only (git stash is shared b
 echo "== with change: build + ctest" | tee -a $LOG
 ( cd $WT && cmake --build _build -j16 2>&1 | tail -1 && ctest --test-dir _build 2>&1 | grep "tests passed" ) | tee -a $LOG
 echo "== with change: demo (expect failure)" | tee -a $LOG
-( cd $WT && bash -c "$(grep -v "^#" _seed/RUN.txt | head -3 | tr "\n" " " | sed "s#WT/#$WT/#g; s#WT #$WT #g")" > /tmp/demo_with.out 2>&1; echo "exit=$?" ) | tee -a $LOG; tail -3 /tmp/demo_with.out | cut -c1-300 | tee -a $LOG
+( cd $WT && bash -c "$(grep -v "^#" _seed/RUN.txt | head -3 | sed "s#WT/#$WT/#g; s#WT #$WT #g")" > /tmp/demo_with.out 2>&1; echo "exit=$?" ) | tee -a $LOG; tail -3 /tmp/demo_with.out | cut -c1-300 | tee -a $LOG
 echo "== without change: demo (expect pass)" | tee -a $LOG
-( cd $WT && git apply -R _seed/patch.diff && (cmake --build _build -j16 >/dev/null 2>&1; true) && bash -c "$(grep -v "^#" _seed/RUN.txt | head -3 | tr "\n" " " | sed "s#WT/#$WT/#g; s#WT #$WT #g")" > /tmp/demo_without.out 2>&1; echo "exit=$?"; git apply _seed/patch.diff ) | tee -a $LOG; tail -2 /tmp/demo_without.out | cut -c1-300 | tee -a $LOG
+( cd $WT && git apply -R _seed/patch.diff && (cmake --build _build -j16 >/dev/null 2>&1; true) && bash -c "$(grep -v "^#" _seed/RUN.txt | head -3 | sed "s#WT/#$WT/#g; s#WT #$WT #g")" > /tmp/demo_without.out 2>&1; echo "exit=$?"; git apply _seed/patch.diff ) | tee -a $LOG; tail -2 /tmp/demo_without.out | cut -c1-300 | tee -a $LOG
 if [ "${SEED_INPLACE:-0}" = 1 ]; then
   echo "== checks on /repo with the patch applied" | tee -a $LOG
   cd /repo && git apply $D/patch.diff || { echo "PATCH DOES NOT APPLY" | tee -a $LOG; exit 1; }
